@@ -37,7 +37,13 @@ RULE = (
     "responses: status x Content-Length given/absent x body item lists <=3 over {b'', b'a', b'bc'} x write() "
     "callable x HEAD/GET x HTTP/1.0|1.1, plus 5 spellings of the Content-Length header name and 4 unusual "
     "application header sets (mixed-case duplicates, Date/Server/Connection set by the application, look-alike "
-    "names) x item lists <=2. non-trivial = distinct raw input with >=2 chunks, a truncation or a "
+    "names) x item lists <=2. B2: client_address x ssl_context x server_address x request version x target x Expect header x pipelined "
+    "second request (REMOTE_ADDR/PORT, SERVER_NAME/PORT/PROTOCOL, wsgi.url_scheme, interim 100, one response per "
+    "connection); B3: 13 application behaviours (generator / closable iterable, mixed write()+iterable, bare "
+    "status, exc_info replace / after output, exceptions before and after output, start_response twice) x "
+    "Content-Length x method x HTTP/1.1|1.0|0.9 request; request header sets with empty / blank values in every "
+    "position of a repeated header; response header lists empty / single / unusual spellings. "
+    "non-trivial = distinct raw input with >=2 chunks, a truncation or a "
     "malformation (A); distinct request/response with a body or a non-default head (B)."
 )
 ASSUMPTIONS = [
@@ -51,7 +57,7 @@ ASSUMPTIONS = [
 
 from werkzeug.serving import DechunkedInput, WSGIRequestHandler  # noqa: E402
 
-DATA = b"ab\ncd\nef"
+DATA = b"ab\ncd\nef\ngh"
 LONG = b"0123456789\nXYZ"
 FILL = 0xEE
 DI_ATTRS = {"_rfile", "_done", "_len"}
@@ -444,7 +450,7 @@ def handler_class(protocol):
     return h
 
 
-def serve(app, raw: bytes, protocol: str):
+def serve(app, raw: bytes, protocol: str, client_address=("127.0.0.1", 1234), ssl=False, server_address=None):
     a, b = socket.socketpair()
     try:
         a.settimeout(5)
@@ -452,9 +458,13 @@ def serve(app, raw: bytes, protocol: str):
         b.sendall(raw)
         b.shutdown(socket.SHUT_WR)
         srv = StubServer(app)
+        if ssl:
+            srv.ssl_context = object()          # make_environ only tests "is None"; no TLS is spoken
+        if server_address is not None:
+            srv.server_address = server_address
         E4.arm(CPU_GUARD)
         try:
-            handler_class(protocol)(a, ("127.0.0.1", 1234), srv)
+            handler_class(protocol)(a, client_address, srv)
         except E4.Hang:
             srv.logs.append(("error", f"handler did not finish within {CPU_GUARD} CPU-seconds (endless loop)"))
         finally:
@@ -532,6 +542,7 @@ def expected_headers(hs, host_override):
     for k, v in hs:
         if "_" in k:
             continue
+        v = v.lstrip(" \t")          # "Name:   value": the blanks after the colon are not part of the value
         key = k.upper().replace("-", "_")
         if key not in ("CONTENT_TYPE", "CONTENT_LENGTH"):
             key = "HTTP_" + key
@@ -667,15 +678,24 @@ EXTRA_HEADER_SETS = [
     (("date", "Thu, 01 Jan 1970 00:00:00 GMT"), ("SERVER", "app-server")),
     (("connection", "close"), ("CONTENT-TYPE", "text/x-second")),
     (("content-LENGTH-x", "7"), ("X-Content-Length", "9"), ("transfer-encoding-x", "chunked")),
+    (("X-Empty", ""), ("X-Zero", "0"), ("X-Empty", "")),
+    "EMPTY",       # index 6: the application's header list is empty
+    "SINGLE",      # index 7: a single header
 ]
+N_UNUSUAL = 6      # indexes 1..5 are the unusual sets
 SERVER_ADDED = {"server", "date", "connection", "transfer-encoding"}
 
 
 def run_response(status, with_cl, items, use_write, method, protocol, extra_headers=()):
     """with_cl: False | True | the spelling of the Content-Length header name the application uses."""
     body = b"".join(items)
-    app_headers = [("X-App", "v1"), ("Content-Type", "text/x-test")]
-    app_headers += [tuple(h) for h in extra_headers]
+    if extra_headers == "EMPTY":         # start_response(status, []) (plus Content-Length when with_cl)
+        app_headers = []
+    elif extra_headers == "SINGLE":
+        app_headers = [("X-App", "v1")]
+    else:
+        app_headers = [("X-App", "v1"), ("Content-Type", "text/x-test")]
+        app_headers += [tuple(h) for h in extra_headers]
     if with_cl:
         app_headers.append(("Content-Length" if with_cl is True else with_cl, str(len(body))))
 
@@ -745,6 +765,254 @@ def run_response(status, with_cl, items, use_write, method, protocol, extra_head
     return v, want_chunked
 
 
+# ------------------------------------------------------------------ B2: environ extras, Expect, pipelining
+
+CONTINUE = b"HTTP/1.1 100 Continue\r\n\r\n"
+
+
+def strip_interim(out: bytes):
+    n = 0
+    while out.startswith(CONTINUE):
+        out = out[len(CONTINUE):]
+        n += 1
+    return out, n
+
+
+def run_env_case(client_address, ssl, server_address, req_version, target, expect, pipelined, protocol):
+    """Request-derived environ keys beyond method/path/query/headers/body, the interim 100 response and
+    one-request-per-connection.  Returns [(sig, text)]."""
+    hs = [("Host", "h")]
+    if expect is not None:
+        hs.append(expect)
+    lines = [f"POST {target} {req_version}"] + [f"{k}: {v}" for k, v in hs] + ["Content-Length: 3"]
+    raw = "\r\n".join(lines).encode("latin-1") + b"\r\n\r\nabc"
+    if pipelined:
+        raw += b"GET /second HTTP/1.1\r\nHost: h\r\n\r\n"
+    calls = []
+
+    def app(environ, start_response):
+        calls.append({k: environ.get(k) for k in ("REMOTE_ADDR", "REMOTE_PORT", "SERVER_NAME", "SERVER_PORT",
+                                                   "SERVER_PROTOCOL", "wsgi.url_scheme", "SCRIPT_NAME", "PATH_INFO",
+                                                   "REQUEST_METHOD", "HTTP_EXPECT", "wsgi.input_terminated")})
+        calls[-1]["body"] = environ["wsgi.input"].read(3)
+        start_response("200 OK", [("Content-Length", "2")])
+        return [b"ok"]
+
+    out, logs = serve(app, raw, protocol, client_address, ssl, server_address)
+    v = []
+    if len(calls) != 1:
+        return [("application-called-%d-times-for-one-connection" % len(calls), out[:200].decode("latin-1"))]
+    e = calls[0]
+    if not client_address:
+        want_addr, want_port = "<local>", 0
+    elif isinstance(client_address, str):
+        want_addr, want_port = client_address, 0
+    else:
+        want_addr, want_port = client_address[0], client_address[1]
+    sa = server_address or StubServer.server_address
+    exp = {"REMOTE_ADDR": want_addr, "REMOTE_PORT": want_port, "SERVER_NAME": sa[0], "SERVER_PORT": str(sa[1]),
+           "SERVER_PROTOCOL": req_version, "wsgi.url_scheme": "https" if ssl else "http", "SCRIPT_NAME": "",
+           "REQUEST_METHOD": "POST", "HTTP_EXPECT": expect[1] if expect and expect[0].lower() == "expect" else None, "wsgi.input_terminated": None,
+           "body": b"abc"}
+    for k, want in exp.items():
+        if e.get(k) != want:
+            v.append(("environ:" + k + "-differs", f"{k}={e.get(k)!r}, expected {want!r}"))
+    exp_path, _q, _h = expected_target(target)
+    if norm_slashes(e["PATH_INFO"]) != norm_slashes(exp_path):
+        v.append(("path-differs", f"PATH_INFO {e['PATH_INFO']!r}, expected {exp_path!r}"))
+    final, interim = strip_interim(out)
+    wants100 = expect is not None and expect[0].lower() == "expect" and expect[1].strip().lower() == "100-continue"
+    if interim and not wants100:
+        v.append(("100-continue-sent-without-expect", out[:120].decode("latin-1")))
+    # (an interim response to an HTTP/1.0 request that itself carries "Expect: 100-continue" is accepted: the
+    # client used a 1.1 feature first and the statement is silent about it)
+    p = parse_response(final)
+    if p is None or p[1] != "200" or p[4] != b"ok":
+        v.append(("response-to-request-garbled", final[:200].decode("latin-1")))
+    if any(t == "error" for t, _m in logs):
+        v.append(("server-logged-error", str([m for t, m in logs if t == "error"])[:300]))
+    return v
+
+
+# ------------------------------------------------------------------ B3: application behaviours
+
+BEHAVIOURS = ["plain", "generator", "closable", "mixed-write", "write-empty-only", "bare-status",
+              "exc-before-start", "exc-after-start", "start-twice", "exc-after-first-item",
+              "exc_info-replace", "exc_info-after-write", "write-then-exc"]
+
+
+class _Boom(Exception):
+    pass
+
+
+def run_behaviour(beh, with_cl, method, protocol, req_version):
+    """Applications that use the rarer parts of the WSGI response protocol, or fail.  Returns [(sig, text)]."""
+    items = [b"a", b"", b"bc"]
+    body = b"".join(items)
+    hdr = [("X-App", "v1")] + ([("Content-Length", str(len(body)))] if with_cl else [])
+    status = "200" if beh == "bare-status" else "200 OK"
+    closed = []
+    crash = beh in ("exc-before-start", "exc-after-start", "start-twice", "exc-after-first-item",
+                    "exc_info-after-write", "write-then-exc")
+
+    class Closable:
+        def __init__(self, it):
+            self.it = iter(it)
+
+        def __iter__(self):
+            return self
+
+        def __next__(self):
+            return next(self.it)
+
+        def close(self):
+            closed.append(1)
+
+    def app(environ, start_response):
+        if beh == "exc-before-start":
+            raise _Boom("before start_response")
+        if beh == "exc_info-replace":
+            start_response("200 OK", [("X-First", "1")])
+            try:
+                raise _Boom("handled")
+            except _Boom:
+                import sys as _sys
+                start_response("503 Busy", list(hdr), _sys.exc_info())
+            return list(items)
+        w = start_response(status, list(hdr))
+        if beh == "exc-after-start":
+            raise _Boom("after start_response, nothing written")
+        if beh == "start-twice":
+            start_response(status, list(hdr))
+        if beh == "generator":
+            return (x for x in items)
+        if beh == "closable":
+            return Closable(items)
+        if beh == "mixed-write":
+            w(items[0])
+            return list(items[1:])
+        if beh == "write-empty-only":
+            w(b"")
+            return []
+        if beh == "write-then-exc":
+            w(items[0])
+            raise _Boom("after write()")
+        if beh in ("exc-after-first-item", "exc_info-after-write"):
+            def gen():
+                yield items[0]
+                if beh == "exc_info-after-write":
+                    try:
+                        raise _Boom("late")
+                    except _Boom:
+                        import sys as _sys
+                        start_response("500 Late", [("X-Late", "1")], _sys.exc_info())
+                raise _Boom("mid-iteration")
+            return gen()
+        return list(items)
+
+    if req_version == "0.9":
+        raw = f"{method} /b\r\n".encode()
+    else:
+        raw = f"{method} /b {req_version}\r\nHost: h\r\n\r\n".encode()
+    out, logs = serve(app, raw, protocol)
+    v = []
+    want_body = b"" if beh == "write-empty-only" else body
+    chunk_ok = (protocol == "HTTP/1.1" and req_version == "HTTP/1.1" and method != "HEAD")
+    if req_version == "0.9":
+        # no status line, no headers: the body must arrive as it is
+        if crash:
+            return v
+        if out != want_body:
+            if dechunk_strict(out) is not None:
+                v.append(("chunked-framing-sent-to-pre-1.1-client", f"HTTP/0.9 request got {out!r}"))
+            else:
+                v.append(("body-differs", f"HTTP/0.9 client received {out!r}, application produced {want_body!r}"))
+        return v
+    p = parse_response(out)
+    if p is None:
+        return [("response-unparsable", out[:200].decode("latin-1"))]
+    version, code, reason, hdrs, payload = p
+    te = [val for k, val in hdrs if k.lower() == "transfer-encoding"]
+    if te and not chunk_ok:
+        v.append(("chunked-framing-sent-to-pre-1.1-client" if req_version != "HTTP/1.1" else "chunked-framing-forbidden",
+                  f"{req_version} {method} request, server {protocol}: Transfer-Encoding {te!r}"))
+        return v
+    if beh in ("exc-before-start", "exc-after-start", "start-twice"):
+        # nothing was sent when the application failed: the documented behaviour is a 500 response
+        if code != "500":
+            v.append(("application-error-before-output-not-a-500", f"status {code!r} {reason!r}"))
+        elif te:
+            if dechunk_strict(payload) is None:
+                v.append(("chunked-body-malformed", repr(payload[:80])))
+        return v
+    want_code, want_reason, want_hdr = "200", ("" if beh == "bare-status" else "OK"), hdr
+    if beh == "exc_info-replace":
+        want_code, want_reason = "503", "Busy"
+    if code != want_code:
+        v.append(("status-code-differs", f"{code!r} != {want_code!r}"))
+    if want_reason and reason != want_reason:
+        v.append(("reason-differs", f"{reason!r} != {want_reason!r}"))
+    for h in want_hdr:
+        if hdrs.count(h) != 1:
+            v.append(("application-headers-not-delivered", f"sent {want_hdr!r}, client saw {hdrs!r}"))
+            break
+    if beh == "exc_info-replace" and any(k == "X-First" for k, _v in hdrs):
+        v.append(("replaced-headers-still-sent", repr(hdrs)))
+    if beh == "exc_info-after-write" and (code != "200" or any(k == "X-Late" for k, _v in hdrs)):
+        v.append(("status-changed-after-output-started", repr((code, hdrs))))
+    want_chunked = (not with_cl) and chunk_ok
+    if crash:
+        # output had started: what arrived must be a prefix of what the application produced, and a chunked
+        # body must NOT be terminated (the client has to be able to see the truncation)
+        if want_chunked:
+            if te != ["chunked"]:
+                v.append(("chunked-framing-missing", f"Transfer-Encoding {te!r}"))
+            elif dechunk_strict(payload) is not None:
+                v.append(("failed-response-terminated-as-complete", repr(payload)))
+            else:
+                got = partial_dechunk(payload)
+                if got is None or not body.startswith(got):
+                    v.append(("body-differs", f"client received {payload!r}"))
+        elif not body.startswith(payload) or (with_cl and payload == body and method != "HEAD"):
+            v.append(("body-differs", f"client received {payload!r} from a failing application producing {items[0]!r}"))
+        return v
+    if want_chunked:
+        if te != ["chunked"]:
+            v.append(("chunked-framing-missing", f"Transfer-Encoding {te!r}"))
+        else:
+            dc = dechunk_strict(payload)
+            if dc is None:
+                v.append(("chunked-body-malformed", repr(payload[:120])))
+            elif dc[0] != want_body:
+                v.append(("chunked-body-differs", f"{dc[0]!r} != {want_body!r}"))
+    elif payload != want_body:
+        v.append(("body-differs", f"client received {payload!r}, application produced {want_body!r}"))
+    if beh == "closable" and closed != [1]:
+        v.append(("iterable-close-called-%d-times" % len(closed), ""))
+    if any(t == "error" for t, _m in logs):
+        v.append(("server-logged-error", str([m for t, m in logs if t == "error"])[:300]))
+    return v
+
+
+def partial_dechunk(b: bytes):
+    """Concatenated data of the complete chunks at the start of b; None if b is not a prefix of a chunk stream."""
+    pos = 0
+    out = b""
+    while pos < len(b):
+        j = b.find(b"\r\n", pos)
+        if j < 0:
+            return None
+        line = b[pos:j]
+        if not line or any(c not in HEXDIG for c in line):
+            return None
+        n = int(line, 16)
+        if n == 0 or b[pos + len(line) + 2 + n : pos + len(line) + 4 + n] != b"\r\n":
+            return None
+        out += b[j + 2 : j + 2 + n]
+        pos = j + 2 + n + 2
+    return out
+
+
 METHODS = ["GET", "POST", "HEAD", "PUT"]
 TARGETS = ["/", "/a%20b", "/%C3%A9", "/a;b?x=1&y=%26", "//dbl/x", "///x", "http://other/p?q", "/a?",
            "/a%2Fb%zz", "/%", "http://other.example:81", "/x?a=%C3%A9&b=//c", "/p%3Fq?r", "/%2F%2Fy"]
@@ -754,6 +1022,15 @@ HEADER_SETS = [
     [("Host", "h"), ("X_Under", "v"), ("X-Ok", "w")],
     [("Host", "example.org:8080"), ("Content-Type", "text/plain; charset=utf-8")],
     [("X-Foo", "a b"), ("x-foo", "c"), ("X-FOO", "d"), ("Accept", "*/*")],
+    # empty and blank values: alone, and in every position of a repeated header
+    [("Host", "h"), ("X-A", "")],
+    [("Host", "h"), ("X-A", ""), ("X-A", "2")],
+    [("Host", "h"), ("X-A", "1"), ("X-A", "")],
+    [("Host", "h"), ("X-A", ""), ("X-A", ""), ("X-A", "3")],
+    [("Host", "h"), ("X-A", "1"), ("X-A", ""), ("X-A", "3")],
+    [("Host", "h"), ("X-A", ""), ("X-A", "")],
+    [("Host", "h"), ("X-A", "  "), ("X-A", "2"), ("X-B", " "), ("Accept", ""), ("accept", "0")],
+    [("Host", ""), ("Content-Type", ""), ("X-A", "0"), ("X-A", "")],
 ]
 STATUSES = ["100 Continue", "200 OK", "204 No Content", "304 Not Modified", "404 Not Found",
             "500 Internal Server Error", "299 X", "199 Y", "205 Reset Content"]
@@ -762,9 +1039,15 @@ ITEMS = [b"", b"a", b"bc"]
 
 # ------------------------------------------------------------------ units
 
+CLIENT_ADDRESSES = [("127.0.0.1", 1234), ("::1", 80, 0, 0), ("10.0.0.9", 65535), "", "/tmp/s.sock"]
+SERVER_ADDRESSES = [None, ("localhost", 80), ("::", 8443)]
+EXPECTS = [None, ("Expect", "100-continue"), ("expect", "100-Continue"), ("EXPECT", "100-CONTINUE"),
+           ("Expect", "200-ok"), ("X-Expect", "100-continue")]
+
+
 def tier_params(tier):
     if tier == "thorough":
-        return dict(nmax=8, wdepth=3, bmax=6, items=5)
+        return dict(nmax=9, wdepth=3, bmax=7, items=5)
     return dict(nmax=6, wdepth=2, bmax=4, items=3)
 
 
@@ -793,6 +1076,11 @@ def units(tier):
         for proto in ("HTTP/1.0", "HTTP/1.1"):
             for method in ("GET", "HEAD"):
                 us.append(("B-resp", st, proto, method, P["items"]))
+    for proto in ("HTTP/1.0", "HTTP/1.1"):
+        for ci in range(len(CLIENT_ADDRESSES)):
+            us.append(("B-env", proto, ci))
+        for beh in BEHAVIOURS:
+            us.append(("B-beh", proto, beh))
     return us
 
 
@@ -825,6 +1113,8 @@ def check_raw(raw, n, R, tier, meta, graph=True, wrappers=True):
 
 def run_unit(unit, R, tier):
     kind = unit[0]
+    if kind in ("B-env", "B-beh"):
+        return run_unit_b2(unit, R, tier)
     P = tier_params(tier)
     if kind == "A-wf":
         _k, n, nl, hexf, comps = unit
@@ -961,7 +1251,9 @@ def run_unit(unit, R, tier):
             R.use("B-resp:chunked" if chunked else "B-resp:plain")
             if with_cl not in (False, True, "Content-Length"):
                 R.use("B-resp:cl-spelling")
-            if extra:
+            if extra in (6, 7):
+                R.use("B-resp:header-list-" + EXTRA_HEADER_SETS[extra].lower())
+            elif extra:
                 R.use("B-resp:extra-headers")
             R.outcome(("Bresp", chunked, tuple(s for s, _t in v)))
             for sig, text in v:
@@ -971,23 +1263,67 @@ def run_unit(unit, R, tier):
                                                   "text": text})
 
         # full item product with / without the canonical Content-Length
-        for with_cl in (False, True):
-            for items in gen.sequences(ITEMS, maxitems):
-                for use_write in (False, True):
-                    one(with_cl, items, use_write, 0)
+        for extra in (0, 6, 7):              # standard / empty / single-header list
+            for with_cl in (False, True):
+                for items in gen.sequences(ITEMS, maxitems):
+                    for use_write in (False, True):
+                        one(with_cl, items, use_write, extra)
         # every spelling of the Content-Length header name x item lists <= 2, and every unusual application
         # header set x Content-Length absent / canonical / lower case x item lists <= 2
         for items in gen.sequences(ITEMS, 2):
             for use_write in (False, True):
                 for sp in CL_SPELLINGS[1:]:
                     one(sp, items, use_write, 0)
-                for extra in range(1, len(EXTRA_HEADER_SETS)):
+                for extra in range(1, N_UNUSUAL):
                     for with_cl in (False, True, "content-length"):
                         one(with_cl, items, use_write, extra)
         if status == "200 OK" and proto == "HTTP/1.1" and method == "GET":
             R.sample({"response_case": dict(status=status, items=[b"a", b"", b"bc"], protocol=proto),
                       "client_received": serve(lambda e, s: (s(status, [("X-App", "v1")]), [b"a", b"", b"bc"])[1],
                                                b"GET /r HTTP/1.1\r\nHost: h\r\n\r\n", proto)[0]})
+
+
+def run_unit_b2(unit, R, tier):
+    kind = unit[0]
+    if kind == "B-env":
+        _k, proto, ci = unit
+        ca = CLIENT_ADDRESSES[ci]
+        for ssl in (False, True):
+            for sa in SERVER_ADDRESSES:
+                for rv in ("HTTP/1.1", "HTTP/1.0"):
+                    for target in ("/", "http://other.example:81/p%20q?x", "HTTPS://Sec.Example/", "//dbl//x"):
+                        for expect in EXPECTS:
+                            for pipelined in (False, True):
+                                R.ev()
+                                R.count("executions")
+                                R.count("requests")
+                                R.use("B-env:expect" if expect else "B-env:plain", "B-env:ssl" if ssl else "B-env:nossl")
+                                R.nontrivial(("env", proto, ca, ssl, sa, rv, target, expect, pipelined))
+                                v = run_env_case(ca, ssl, sa, rv, target, expect, pipelined, proto)
+                                R.outcome(("Benv", tuple(s for s, _t in v)))
+                                for sig, text in v:
+                                    R.violation("B:environ:" + sig,
+                                                {"kind": "B-env", "client_address": ca, "ssl": ssl, "server_address": sa,
+                                                 "req_version": rv, "target": target, "expect": expect,
+                                                 "pipelined": pipelined, "protocol": proto, "sig": sig, "text": text})
+    else:
+        _k, proto, beh = unit
+        for with_cl in (False, True):
+            for method in ("GET", "HEAD", "POST"):
+                for rv in ("HTTP/1.1", "HTTP/1.0", "0.9"):
+                    if rv == "0.9" and method != "GET":
+                        continue
+                    R.ev()
+                    R.count("executions")
+                    R.count("responses")
+                    R.use("B-beh:" + beh, "B-beh:req-" + rv)
+                    R.nontrivial(("beh", proto, beh, with_cl, method, rv))
+                    v = run_behaviour(beh, with_cl, method, proto, rv)
+                    R.outcome(("Bbeh", beh, tuple(s for s, _t in v)))
+                    for sig, text in v:
+                        R.violation("B:behaviour:" + sig, {"kind": "B-beh", "beh": beh, "with_cl": with_cl,
+                                                           "method": method, "protocol": proto, "req_version": rv,
+                                                           "sig": sig, "text": text})
 
 
 def finalize(R, tier):
@@ -998,7 +1334,9 @@ def finalize(R, tier):
             "ref:bad-terminator", "ref:trunc-final-line-end", "ref:trunc-last-chunk-line", "ref:bad-final-line-end",
             "mal:size0", "mal:size1", "mal:last", "mal:term", "mal:size16",
             "B-req:none", "B-req:cl", "B-req:chunked", "B-resp:chunked", "B-resp:plain",
-            "B-resp:cl-spelling", "B-resp:extra-headers", "B-req:spelling"}
+            "B-resp:cl-spelling", "B-resp:extra-headers", "B-req:spelling",
+            "B-resp:header-list-empty", "B-resp:header-list-single", "B-env:expect", "B-env:plain", "B-env:ssl", "B-beh:req-0.9", "B-beh:req-HTTP/1.0"}
+    need |= {"B-beh:" + b for b in BEHAVIOURS}
     missing = need - R.used
     if missing:
         raise core.Broken(f"vacuity: never exercised {sorted(missing)}")
@@ -1036,6 +1374,21 @@ def replay(rec):
                                  rec["body"], tuple(rec["comp"]) if rec["comp"] is not None else None, rec["nl"],
                                  rec["hexf"])
         return any(s == rec["sig"] for s, _t in v), f"request bytes = {raw!r}\napplication reads = {rec['reads']}\nviolations = {v}"
+    if k == "B-env":
+        ca = rec["client_address"]
+        ca = tuple(ca) if isinstance(ca, (list, tuple)) else ca
+        sa = tuple(rec["server_address"]) if rec["server_address"] is not None else None
+        ex = tuple(rec["expect"]) if rec["expect"] is not None else None
+        v = run_env_case(ca, rec["ssl"], sa, rec["req_version"], rec["target"], ex, rec["pipelined"], rec["protocol"])
+        return any(s == rec["sig"] for s, _t in v), (
+            f"client_address={ca!r} ssl_context set={rec['ssl']} server_address={sa!r} request "
+            f"'POST {rec['target']} {rec['req_version']}' extra header={ex!r} pipelined second request="
+            f"{rec['pipelined']} server protocol={rec['protocol']}\nviolations = {v}")
+    if k == "B-beh":
+        v = run_behaviour(rec["beh"], rec["with_cl"], rec["method"], rec["protocol"], rec["req_version"])
+        return any(s == rec["sig"] for s, _t in v), (
+            f"application behaviour={rec['beh']} Content-Length given={rec['with_cl']} request={rec['method']} "
+            f"{rec['req_version']} server protocol={rec['protocol']}\nviolations = {v}")
     if k == "B-resp":
         v, chunked = run_response(rec["status"], rec["with_cl"], tuple(rec["items"]), rec["use_write"],
                                   rec["method"], rec["protocol"], EXTRA_HEADER_SETS[rec.get("extra", 0)])
@@ -1119,7 +1472,15 @@ def _nonhex_size_accepted(rec):
         return False
 
 
+def _chunked_to_old_client(rec):
+    """Server protocol HTTP/1.1, request version HTTP/1.0 or HTTP/0.9, no Content-Length: the response body is
+    chunk-framed although the client cannot speak chunked."""
+    return (rec.get("kind") == "B-beh" and rec["sig"] == "chunked-framing-sent-to-pre-1.1-client"
+            and rec["protocol"] == "HTTP/1.1" and rec["req_version"] in ("HTTP/1.0", "0.9") and not rec["with_cl"])
+
+
 FINDINGS = {
+    "C19-chunked-response-to-pre-http11-request": _chunked_to_old_client,
     "C19-dechunk-eof-inside-chunk-data": _eof_in_chunk_data,
     "C19-dechunk-nonhex-size-line-accepted": _nonhex_size_accepted,
 }
@@ -1133,7 +1494,7 @@ LEVEL_TEXT = (
 )
 LEVEL_NOTE = (
     "Trusted: the strict reference de-chunker, the harness request builder / response parser, BytesIO standing in "
-    "for the buffered socket file in space A (space B uses the real one). Bodies <= 8 bytes; no TLS / keep-alive / "
+    "for the buffered socket file in space A (space B uses the real one). Bodies <= 9 bytes; no TLS / keep-alive / "
     "reloader; chunk extensions, blank-padded size lines and truncation after the last-chunk line accept either outcome."
 )
 TECHNIQUE = "explicit-state read-schedule graphs of the de-chunker + exhaustive request/response product over a socket pair"
